@@ -266,6 +266,15 @@ class DirectCollocation(SamplingMethod):
                 var = self.t0
             is_states = depends_on(var, stage.x)
             opti_initial = opti.initial()
+            if var in self.signals:
+                # A bspline variable: a constant guess is a constant coefficient vector
+                C = self.signals[var].coeff
+                if not is_numeric(expr) or ca.evalf(expr).numel() not in [1, C.shape[0]]:
+                    raise Exception("Only constant initial guesses are supported for grid='bspline' variables")
+                value = ca.evalf(expr)
+                value = repmat(value, C.shape[0], 1) if value.numel()==1 else ca.vec(value)
+                opti.set_initial(C, repmat(value, 1, C.shape[1]), cache_advanced=True)
+                continue
             if is_numeric(expr):
                 value = ca.evalf(expr)
                 # Row vector if vector
